@@ -649,14 +649,19 @@ def roundtrip_run(ctx, kind, cfg, seed, max_resumes=None):
     sampler_site = "NestedSampler" if kind == "std" else "ImportanceNestedSampler"
     time_trigger = cfg.get("time_trigger")
 
+    forced = {"now": False, "done": 0}
+
     def hook(obj, filename, when, pre=None):
         if when == "before":
             full = canon(obj) if len(snaps) % 7 == 0 else None
             cl = classify(kind, obj)
             if kind == "std":
                 cl["mid_iteration"] = int(inside_consume_sample())
+                cl["mid_population"] = int(forced["now"])
                 counts = (len(obj.nested_samples), len(obj.insertion_indices), len(obj.state.logLs) - 1)
-                if not obj.finalised and counts != (obj.iteration,) * 3:
+                # (the checkpoint forced in the middle of a population stands for the signal handler's: that window of
+                #  consume_sample is C13's known finding and is not judged here — only the state round trip is)
+                if not obj.finalised and counts != (obj.iteration,) * 3 and not forced["now"]:
                     ctx.oracle_fail(MID_KEY if cl["mid_iteration"] else "NestedSampler.checkpoint:state-between-iterations",
                                     f"checkpoint written at iteration {obj.iteration} holds {counts[0]} nested samples, {counts[1]} insertion "
                                     f"indices and {counts[2]} integrated points: the worst point has been recorded and the iteration counted but "
@@ -677,14 +682,35 @@ def roundtrip_run(ctx, kind, cfg, seed, max_resumes=None):
                 flags["flow"] = True
             ctx.hist["table-vs-runtime objects"] += check_tables_against_runtime(ctx, obj, {**case, "checkpoint": len(snaps)})
 
+    # a checkpoint written WHILE the flow proposal is populating its pool (what FlowSampler.safe_exit does when a signal
+    # arrives there): `populating` is True in it and must come back True, otherwise the resumed sampler retrains the flow it
+    # had just trained (seeded change C12-c).  Forced from inside the second and the fifth population of the run.
+    holder = {}
+    from nessai.proposal.flowproposal import FlowProposal as _FP
+    orig_backward = _FP.backward_pass
+
+    def backward_pass(self_, *a, **k):
+        out_ = orig_backward(self_, *a, **k)
+        ns_ = holder.get("ns")
+        if kind == "std" and ns_ is not None and self_.populating and not forced["now"] \
+                and getattr(self_, "populated_count", 0) in (1, 4) and forced["done"] <= (0 if self_.populated_count == 1 else 1):
+            forced["now"] = True
+            forced["done"] += 1
+            try:
+                ns_.checkpoint()
+            finally:
+                forced["now"] = False
+        return out_
+
     try:
-        with LogicalTime(), flows_ctx(cfg), DumpHook(hook):
+        with LogicalTime(), flows_ctx(cfg), DumpHook(hook), mock.patch.object(_FP, "backward_pass", backward_pass):
             np.random.seed(seed)
             torch.manual_seed(seed)
             rec.launch(None)
             model = instrument(base_model(kind, cfg, seed), rec)
             try:
                 fs = build_sampler(kind, cfg, seed, model, tmp, resume=False, time_trigger=time_trigger)
+                holder["ns"] = fs.ns
                 rec.count = True
                 run_sampler(kind, fs)
             except Exception as e:  # noqa
